@@ -24,6 +24,8 @@ What is false of the code as it stands, and therefore `_partial` + `_witness` (e
 * wcsnorm_reorder_s / wcsnorm_compose_s index tables with cells > 0x10FFFF → `reorder_range_witness`, `compose_range_witness`,
   repaired: `reorder_range_fixed`, `compose_range_fixed`
 * iswfc announces 0/1 where towfc_s does / does not fold (748 code points) → `fold_announce_partial`, witnesses in FoldCount.lean
+* wcsfc_s decomposes what it folds (U+00C9 ⇒ `e` U+0301), has a final-sigma rule and a 5-cell margin: it does NOT emit what iswfc
+  announces, and announced sum + 1 cells do not suffice   → Props/C17Fold.lean (`wcsfc_model`, `wcsfc_announced_partial`, witnesses)
 NFC: `nfc_model` (every input, as is and repaired: EOK ⇒ dest = D117 on the NFD), `nfc_uax15_partial` (the code as it is NOW —
 `current`, both repairs applied in /repo — = UAX #15 NFC over UCD 14.0, all strings of assigned code points ≠ U+037E; wrapper level:
 `nfc_call_uax15_partial`), `nfc_is_uax15_partial` (the code before the repair, when the NFD lies in the BMP).
